@@ -3,7 +3,7 @@
    descriptions of one evaluation: [ScanTo] / [EvalTo], with the two composition lemmas
    "nothing enabled: evaluation stops" and "first enabled transition fires, its callbacks run
    in order, the scan restarts".  Proof file. *)
-From PFDL Require Import NetModel NetRun NetC08.
+From PFDL Require Import NetModel.
 From Coq Require Import Lia.
 Local Open Scope net_scope.
 
